@@ -226,6 +226,60 @@ example : (lifeRun (fun _ => List.replicate 32 48) ⟨128, false, some 20, none,
     [.fmtIndex true (List.replicate 61 97), .connect (some 30), .fmtIndex true (List.replicate 61 97)]).map
       (fun e => match e.2.2 with | .name r => r.length | _ => 0) = [61, 0, 27] := by decide +kernel
 
+/-! ## labels of one columns clause: `_generate_columns_plus_names` -/
+
+/-- **select_labels_distinct** — for EVERY list of named columns (any number of
+    repetitions of a column, any name clashes between different columns, any
+    interleaving) and both label styles, the labels under which the columns are rendered
+    (`anon_for_dupe_key`, as the compiler asks) are pairwise distinct: plain names and
+    disambiguating labels are used at most once, and every further occurrence gets a dedupe
+    label whose index strictly increases. -/
+theorem select_labels_distinct (tq : Bool) (cols : List Col) : (genNames tq true cols).Nodup := by
+  have hinv : GInv ⟨[], 1⟩ [] := by
+    constructor
+    · intro l hl; cases hl
+    · intro l c hl; simp at hl
+  exact (genRun_nodup tq cols ⟨[], 1⟩ [] hinv).1
+
+/-! ## anonymous names handed out by `prefix_anon_map` -/
+
+/-- **anon_names_distinct** — for every sequence of anonymous keys looked up in one
+    compilation (labels, aliases, bind names; any repeats), two lookups that returned the
+    same name were lookups of the same key: `derived_<n>` is injective in (derived, n) and
+    the per-`derived` counter never repeats. -/
+theorem anon_names_distinct (ks : List (Nat × Str)) (i j : Nat) (k1 k2 : Nat × Str) (v : Str)
+    (h1 : ks[i]? = some k1) (h2 : ks[j]? = some k2)
+    (r1 : (amRun AMap.empty ks)[i]? = some v) (r2 : (amRun AMap.empty ks)[j]? = some v) :
+    k1 = k2 := by
+  obtain ⟨m', hinv, _, hs⟩ := amRun_spec ks AMap.empty ainv_empty
+  exact hinv.inj k1 k2 v (hs i k1 v h1 r1) (hs j k2 v h2 r2)
+
+/-! ## keys of bound parameters derived from one text() template -/
+
+/-- **text_derived_binds_distinct** — `text(...).bindparams(name=value)` copies the
+    template's parameter with `maintain_key` as written in the source (regenerated flag);
+    for a `unique=True` parameter any number of statements derived from one template carry
+    pairwise distinct anonymous keys (one per copy), so by `anon_names_distinct` they get
+    pairwise distinct names when embedded in one statement. -/
+theorem text_derived_binds_distinct (id0 : Nat) (name : Str) (ids : List Nat) (hn : ids.Nodup) :
+    ((deriveText (mkBind id0 name true) SaVerif.Gen.NamingTables.textBindparamsMaintainKey ids).map
+      (·.key)).Nodup := by
+  have hflag : SaVerif.Gen.NamingTables.textBindparamsMaintainKey = false := by decide
+  rw [hflag]
+  exact derive_keys_nodup _ (by simp [mkBind]) ids hn
+
+/-- with `maintain_key=True` all copies share the template's key -/
+example : ((deriveText (mkBind 1 (ofS "val") true) true [2, 3]).map (·.key))
+    = [.anon 1 (ofS "val"), .anon 1 (ofS "val")] := by decide +kernel
+
+example : genNames false true [⟨1, ofS "t1", ofS "a"⟩, ⟨2, ofS "t2", ofS "a"⟩, ⟨2, ofS "t2", ofS "a"⟩,
+      ⟨2, ofS "t2", ofS "a"⟩, ⟨1, ofS "t1", ofS "a"⟩]
+    = [.plain (ofS "a"), .anon ⟨2, ofS "t2", ofS "a"⟩ false, .dedupe 1 ⟨2, ofS "t2", ofS "a"⟩ false,
+       .dedupe 2 ⟨2, ofS "t2", ofS "a"⟩ false, .dedupe 3 ⟨1, ofS "t1", ofS "a"⟩ false] := by decide +kernel
+example : renderLabs AMap.empty (genNames false true [⟨1, ofS "t1", ofS "a"⟩, ⟨2, ofS "t2", ofS "a"⟩,
+      ⟨2, ofS "t2", ofS "a"⟩, ⟨2, ofS "t2", ofS "a"⟩])
+    = [ofS "a", ofS "a_1", ofS "a__1", ofS "a__2"] := by decide +kernel
+
 /-! ## naming conventions feed the truncation -/
 
 /-- whatever a convention expands to, the rendered constraint name is bounded -/
